@@ -2213,6 +2213,9 @@ func (x *Exec) monitorHook(st *State, fr *Frame, kind string, lock PtrV) {
 // sentinelFact: package-level error variables initialised with errors.New / fmt.Errorf are distinct non-nil
 // values (assumed never reassigned).
 func (x *Exec) sentinelFact(p PtrV, v Value) Term {
+	if f := x.initNonNilFact(p, v); f.S != "true" {
+		return f
+	}
 	iv, ok := v.(IfaceV)
 	if !ok || len(p.Path) != 0 || p.Elem || !isLiteral(p.Base.S) || !strings.HasPrefix(p.Base.S, "(- ") {
 		return tTrue
@@ -2236,6 +2239,123 @@ func (x *Exec) sentinelFact(p PtrV, v Value) Term {
 	}
 	x.trusted["error sentinel "+key+" is a distinct non-nil value that is never reassigned"] = true
 	return and(eq(iv.Tag, intLit(int64(x.typeIDByName("*errors.errorString")))), eq(iv.Val, intLit(int64(-100000-n))))
+}
+
+// initNonNilFact: a package-level map / channel / pointer variable whose declaration initialises it with make,
+// new, &T{...} or a composite literal and that no function of its package ever assigns again is not nil.
+func (x *Exec) initNonNilFact(p PtrV, v Value) Term {
+	sv, ok := v.(Scalar)
+	if !ok || len(p.Path) != 0 || p.Elem || !isLiteral(p.Base.S) || !strings.HasPrefix(p.Base.S, "(- ") {
+		return tTrue
+	}
+	switch p.Root.Underlying().(type) {
+	case *types.Map, *types.Chan, *types.Pointer:
+	default:
+		return tTrue
+	}
+	var id int
+	fmt.Sscanf(p.Base.S, "(- %d)", &id)
+	var g *ssa.Global
+	for gg, gid := range x.globalIDs {
+		if gid == id {
+			g = gg
+		}
+	}
+	if g == nil || g.Pkg == nil || !x.initialisedOnce(g) {
+		return tTrue
+	}
+	x.trusted["package variable "+g.Pkg.Pkg.Path()+"."+g.Name()+" is initialised non-nil at its declaration and never assigned again (checked syntactically)"] = true
+	return not(eq(sv.T, intLit(0)))
+}
+
+func (x *Exec) initialisedOnce(g *ssa.Global) bool {
+	if x.initOnce == nil {
+		x.initOnce = map[*ssa.Global]bool{}
+	}
+	if r, ok := x.initOnce[g]; ok {
+		return r
+	}
+	res := false
+	defer func() { x.initOnce[g] = res }()
+	pp := x.pkgs[g.Pkg.Pkg.Path()]
+	if pp == nil {
+		return false
+	}
+	// the declaration's initialiser
+	initOK := false
+	for _, f := range pp.Syntax {
+		for _, d := range f.Decls {
+			gd, ok := d.(*ast.GenDecl)
+			if !ok || gd.Tok != token.VAR {
+				continue
+			}
+			for _, sp := range gd.Specs {
+				vs := sp.(*ast.ValueSpec)
+				for i, n := range vs.Names {
+					if n.Name != g.Name() || i >= len(vs.Values) || len(vs.Values) != len(vs.Names) {
+						continue
+					}
+					switch e := vs.Values[i].(type) {
+					case *ast.CallExpr:
+						fn := exprString(e.Fun)
+						initOK = fn == "make" || fn == "new"
+					case *ast.CompositeLit:
+						initOK = true
+					case *ast.UnaryExpr:
+						_, isLit := e.X.(*ast.CompositeLit)
+						initOK = e.Op == token.AND && isLit
+					}
+				}
+			}
+		}
+	}
+	if !initOK {
+		return false
+	}
+	// no other store to it anywhere in the package
+	var scan func(fn *ssa.Function) bool
+	seen := map[*ssa.Function]bool{}
+	scan = func(fn *ssa.Function) bool {
+		if fn == nil || seen[fn] {
+			return true
+		}
+		seen[fn] = true
+		if x.ld != nil {
+			x.ld.ensureBuilt(fn)
+		}
+		for _, b := range fn.Blocks {
+			for _, in := range b.Instrs {
+				if st, ok := in.(*ssa.Store); ok && st.Addr == ssa.Value(g) && fn.Name() != "init" {
+					return false
+				}
+			}
+		}
+		for _, af := range fn.AnonFuncs {
+			if !scan(af) {
+				return false
+			}
+		}
+		return true
+	}
+	for _, m := range g.Pkg.Members {
+		switch mm := m.(type) {
+		case *ssa.Function:
+			if !scan(mm) {
+				return false
+			}
+		case *ssa.Type:
+			for _, T := range []types.Type{mm.Type(), types.NewPointer(mm.Type())} {
+				ms := x.prog.MethodSets.MethodSet(T)
+				for i := 0; i < ms.Len(); i++ {
+					if !scan(x.prog.MethodValue(ms.At(i))) {
+						return false
+					}
+				}
+			}
+		}
+	}
+	res = true
+	return true
 }
 
 func (x *Exec) isSentinel(g *ssa.Global) bool {
